@@ -741,6 +741,15 @@ func (i *instance) skipToRound(round uint64, chain *ECChain, justification *Just
 	metrics.currentRound.Record(context.TODO(), int64(i.current.Round))
 	metrics.skipCounter.Add(context.TODO(), 1, metric.WithAttributes(attrSkipToRound))
 
+	if i.current.Phase == QUALITY_PHASE {
+		// Skipping ahead before QUALITY has concluded: settle the proposal and the
+		// candidates from the QUALITY votes received so far, exactly as the QUALITY
+		// timeout would. Otherwise the untrimmed input would be proposed in CONVERGE
+		// without being a candidate, leaving CONVERGE with no acceptable value.
+		i.proposal = i.quality.FindStrongQuorumValueForLongestPrefixOf(i.input)
+		i.addCandidatePrefixes(i.proposal)
+		i.value = i.proposal
+	}
 	if justification.Vote.Phase == PREPARE_PHASE {
 		i.log("⚠️ swaying from %s to %s by skip to round %d", i.proposal, chain, i.current.Round)
 		i.addCandidate(chain)
